@@ -191,8 +191,17 @@ def _reserved(raw, a):
     return r
 
 
+def _holder_tolerant(raw):
+    """from_raw_to_holder under the C09 clause (trailing octets ignored or refused, see core.cfdp_tolerant)"""
+    class _W:       # gives the holder the .pack()/== surface cfdp_tolerant compares
+        def __init__(self, h): self.h = h
+        def pack(self): return self.h.pdu.pack() if self.h.pdu is not None else b""
+        def __eq__(self, o): return self.h.pdu == o.h.pdu
+    return core.cfdp_tolerant(lambda b: _W(PduFactory.from_raw_to_holder(b)), raw).h
+
+
 def _holder(raw, a):
-    h = PduFactory.from_raw_to_holder(raw)
+    h = core.cfdp_tolerant(PduFactory.from_raw_to_holder, raw) if False else _holder_tolerant(raw)
     if h.pdu is not None:
         h.packet_len, h.pdu_type, h.is_file_directive, h.pdu_directive_type   # views of a held PDU never raise
     return h
@@ -244,18 +253,18 @@ DECODE: Dict[str, Callable[[Any, Dict[str, Any]], Any]] = {
 DECODE.update({
     # stage 2: CFDP PDUs, factory, reserved messages
     "directive_base": lambda raw, a: FileDirectivePduBase.unpack(raw),
-    "ack": lambda raw, a: AckPdu.unpack(raw),
-    "prompt": lambda raw, a: PromptPdu.unpack(raw),
-    "keep_alive": lambda raw, a: KeepAlivePdu.unpack(raw),
-    "nak": lambda raw, a: NakPdu.unpack(raw),
-    "eof": lambda raw, a: EofPdu.unpack(raw),
-    "finished": lambda raw, a: FinishedPdu.unpack(raw),
-    "metadata": lambda raw, a: MetadataPdu.unpack(raw),
-    "file_data": lambda raw, a: FileDataPdu.unpack(raw),
+    "ack": lambda raw, a: core.cfdp_tolerant(AckPdu.unpack, raw, refuses=False),
+    "prompt": lambda raw, a: core.cfdp_tolerant(PromptPdu.unpack, raw, refuses=False),
+    "keep_alive": lambda raw, a: core.cfdp_tolerant(KeepAlivePdu.unpack, raw, refuses=False),
+    "nak": lambda raw, a: core.cfdp_tolerant(NakPdu.unpack, raw, refuses=True),
+    "eof": lambda raw, a: core.cfdp_tolerant(EofPdu.unpack, raw, refuses=False),
+    "finished": lambda raw, a: core.cfdp_tolerant(FinishedPdu.unpack, raw, refuses=False),
+    "metadata": lambda raw, a: core.cfdp_tolerant(MetadataPdu.unpack, raw, refuses=False),
+    "file_data": lambda raw, a: core.cfdp_tolerant(FileDataPdu.unpack, raw, refuses=False),
     "pdu_type": lambda raw, a: PduFactory.pdu_type(raw),
     "is_file_directive": lambda raw, a: PduFactory.is_file_directive(raw),
     "pdu_directive_type": lambda raw, a: PduFactory.pdu_directive_type(raw),
-    "factory": lambda raw, a: PduFactory.from_raw(raw),
+    "factory": lambda raw, a: core.cfdp_tolerant(PduFactory.from_raw, raw),
     "factory_holder": _holder,
     "reserved": _reserved,
 })
